@@ -284,7 +284,13 @@ class ProgramSet(NamedItem):
         for par in self.pars:
             for pop in self.pops:
                 if (par, pop) in self.covouts and code_name in self.covouts[(par, pop)].progs:
-                    del self.covouts[(par, pop)].progs[code_name]
+                    covout = self.covouts[(par, pop)]
+                    del covout.progs[code_name]
+                    if covout.imp_interaction and covout.imp_interaction.lower() not in ["best", "synergistic"]:
+                        # Drop explicit interaction outcomes that involve the removed program
+                        terms = [t for t in covout.imp_interaction.split(",") if code_name not in [x.strip() for x in t.split("=")[0].split("+")]]
+                        covout.imp_interaction = ",".join(terms) if terms else None
+                    covout.update_outcomes()
 
     def add_pop(self, code_name: str, full_name: str, pop_type: str = None) -> None:
         """
